@@ -80,6 +80,20 @@ CLAIMED = {
             "calibrate works) for every fault index of every generated run; the agent-thread protocol is proved under C10.",
             "Trusted: Lean kernel; joblib n_jobs=1 lazy in-order evaluation; threading.enumerate(). Fault = exception at component entry.",
             "DESIGN.md §4 C11"),
+    "C05": ("Lean 4 proof (loop additivity, live split, restore-after-checkpoint = saved core, resumed run = uninterrupted run, by induction over the loop) + exhaustive compositions of n on real twins with all built-in samplers, byte-wise",
+            "Proved in Lean for arbitrary components: a loop for a+b batches is a loop for a then b; two live calibrate calls equal one; restore(create_checkpoint(s)) "
+            "returns the saved core; continuing the restored object equals continuing the live one, hence equals the uninterrupted run — under the model's perfect serialisers, "
+            "whose real counterpart (every sampler's whole state survives pickle; CSV/JSON/HDF5 round trips) is validated by running every composition of n batches "
+            "(each boundary live or restore) on the real code against the uninterrupted twin.",
+            "Trusted: Lean kernel; pickle round trip of third-party sampler internals (validated differentially); no convergence precision (C14); round-robin line-ups.",
+            "DESIGN.md §4 C05"),
+    "C01": ("Lean 4 proof (nuisance-stripping simulation over any sequence of calls; reseeding erases constructor state under a per-class contract; simulation seeds are consecutive draws in replication order) + differential pairs and recorded draw traces on the real code",
+            "Proved in Lean: histories, return values and failures after any sequence of calibrate calls are the same for calibrators that differ only in verbosity, number "
+            "of jobs and saving folder; the first calibrate reseeds every sampler so that, under the class contract ReseedErases, constructor seeds do not matter; without "
+            "failures the seed of member e of row i is draw m + i*E + e of the calibrator stream. The contract is validated on every real sampler class (deep state "
+            "equality after reseeding), the draw order on recording generators, and whole runs differentially (n_jobs 1/2/4, verbose, folder, ctor seeds; RR and RL).",
+            "Trusted: Lean kernel; determinism of numpy PCG64 and of sklearn/xgboost/scipy given their random_state; joblib workers as pure evaluators.",
+            "DESIGN.md §4 C01"),
 }
 NOT_YET = {}
 
